@@ -316,7 +316,7 @@ func (in *inliner) returnsNext() bool {
 		return false
 	}
 	for _, r := range rs.Results {
-		if !pureExpr(r) {
+		if !in.pure(r) {
 			return false
 		}
 	}
@@ -428,14 +428,31 @@ func (in *inliner) text(file string, a, b token.Pos) string {
 func (in *inliner) fileOf(p token.Pos) string { return in.fset.File(p).Name() }
 
 // pure: evaluating e has no side effect and cannot observe one.
-func pureExpr(e ast.Expr) bool {
+func pureExpr(e ast.Expr) bool { return pureExprInfo(e, nil) }
+
+func (in *inliner) pure(e ast.Expr) bool { return pureExprInfo(e, in.pkg.TypesInfo) }
+
+func pureExprInfo(e ast.Expr, info *types.Info) bool {
 	ok := true
 	ast.Inspect(e, func(n ast.Node) bool {
-		switch n.(type) {
-		case *ast.CallExpr, *ast.FuncLit:
+		switch x := n.(type) {
+		case *ast.CallExpr:
+			// conversions and len/cap evaluate nothing but their operand
+			if info != nil {
+				if tv, has := info.Types[x.Fun]; has && tv.IsType() {
+					return ok
+				}
+				if id, isId := ast.Unparen(x.Fun).(*ast.Ident); isId {
+					if _, isB := info.Uses[id].(*types.Builtin); isB && (id.Name == "len" || id.Name == "cap") {
+						return ok
+					}
+				}
+			}
+			ok = false
+		case *ast.FuncLit:
 			ok = false
 		case *ast.UnaryExpr:
-			if n.(*ast.UnaryExpr).Op == token.ARROW {
+			if x.Op == token.ARROW {
 				ok = false
 			}
 		}
@@ -511,7 +528,7 @@ func (in *inliner) firstCall(e ast.Expr) *site {
 			}
 			if x.Op == token.LAND || x.Op == token.LOR {
 				// the right operand is conditional: nothing in it may be hoisted, and it may have effects
-				if !pureExpr(x.Y) {
+				if !in.pure(x.Y) {
 					pure = false
 					return false
 				}
@@ -592,7 +609,7 @@ func (in *inliner) tryStmt(file *ast.File, encl *ast.FuncDecl, s ast.Stmt) bool 
 			}
 			others := true
 			for j, o := range x.Results {
-				if j != i && !pureExpr(o) {
+				if j != i && !in.pure(o) {
 					others = false
 				}
 			}
@@ -604,7 +621,7 @@ func (in *inliner) tryStmt(file *ast.File, encl *ast.FuncDecl, s ast.Stmt) bool 
 		for i, rh := range x.Results {
 			prevPure := true
 			for _, q := range x.Results[:i] {
-				if !pureExpr(q) {
+				if !in.pure(q) {
 					prevPure = false
 				}
 			}
@@ -614,7 +631,7 @@ func (in *inliner) tryStmt(file *ast.File, encl *ast.FuncDecl, s ast.Stmt) bool 
 			if st := in.firstCall(rh); st != nil {
 				return in.hoist(file, st, s, fname, s.Pos(), s.End(), nil)
 			}
-			if !pureExpr(rh) {
+			if !in.pure(rh) {
 				break
 			}
 		}
@@ -637,7 +654,7 @@ func (in *inliner) tryStmt(file *ast.File, encl *ast.FuncDecl, s ast.Stmt) bool 
 		if len(x.Rhs) == 1 {
 			if st := in.siteOf(x.Rhs[0]); st != nil && ast.Unparen(x.Rhs[0]) == ast.Expr(st.call) {
 				for _, l := range x.Lhs {
-					if !pureExpr(l) {
+					if !in.pure(l) {
 						return false
 					}
 				}
@@ -647,7 +664,7 @@ func (in *inliner) tryStmt(file *ast.File, encl *ast.FuncDecl, s ast.Stmt) bool 
 		// a call nested in the right-hand side(s)
 		lhsPure := true
 		for _, l := range x.Lhs {
-			if !pureExpr(l) {
+			if !in.pure(l) {
 				lhsPure = false
 			}
 		}
@@ -655,7 +672,7 @@ func (in *inliner) tryStmt(file *ast.File, encl *ast.FuncDecl, s ast.Stmt) bool 
 			for i, rh := range x.Rhs {
 				prevPure := true
 				for _, q := range x.Rhs[:i] {
-					if !pureExpr(q) {
+					if !in.pure(q) {
 						prevPure = false
 					}
 				}
@@ -665,7 +682,7 @@ func (in *inliner) tryStmt(file *ast.File, encl *ast.FuncDecl, s ast.Stmt) bool 
 				if st := in.firstCall(rh); st != nil {
 					return in.hoist(file, st, s, fname, s.Pos(), s.End(), nil)
 				}
-				if !pureExpr(rh) {
+				if !in.pure(rh) {
 					break
 				}
 			}
@@ -707,7 +724,7 @@ func (in *inliner) initSite(init ast.Stmt) *site {
 		if len(x.Rhs) == 1 {
 			if st := in.siteOf(x.Rhs[0]); st != nil && ast.Unparen(x.Rhs[0]) == ast.Expr(st.call) {
 				for _, l := range x.Lhs {
-					if !pureExpr(l) {
+					if !in.pure(l) {
 						return nil
 					}
 				}
